@@ -35,3 +35,30 @@ package processorretry
 //@   ensures[failed-ends]   result0.Name == "failed" ==> ifacenil(result0.RespAction) && ifacenil(result0.ReqAction)
 //@   ensures[fail-forgets] result0.Name == "failed" ==> !hasR(p, APIStream, APIStream.GetSequenceID())
 //@   ensures[frame]        forall(q, string, q != APIStream.GetSequenceID() ==> (hasR(p, APIStream, q) <==> old(hasR(p, APIStream, q))) && valR(p, APIStream, q) == old(valR(p, APIStream, q)))
+
+// ---------------------------------------------------------------- construction: the bound is the configured number of attempts
+//@ ghost func pInt(m map[string]stream_types.ProcessorParam, name string) int
+//@ ghost func pSeconds(m map[string]stream_types.ProcessorParam, name string) int64
+//@ ghost func pFloat(m map[string]stream_types.ProcessorParam, name string) real
+//@ extern utils.ExtractIntParam
+//@   params metaData, paramName, out
+//@   modifies *out
+//@   ensures result == nil ==> *out == pInt(metaData, paramName)
+//@ extern utils.ExtractDurationInSecParam
+//@   params metaData, paramName, out
+//@   modifies *out
+//@   ensures result == nil ==> *out == pSeconds(metaData, paramName) * 1000000000
+//@ extern utils.ExtractFloat64Param
+//@   params metaData, paramName, out
+//@   modifies *out
+//@   ensures result == nil ==> *out == pFloat(metaData, paramName)
+//@ pure environment.GetLuaRetryRequestTimeout
+//@ pure retryProcessor).getCooldownDuration
+
+//@ func (*retryProcessor).init
+//@   prop C17
+//@   requires p != nil && p.metaData != nil
+//@   modifies p.logger, p.attempts, p.cooldown, p.cooldownMultiplier, now
+//@   loop 1 modifies nothing
+//@   ensures[bound-is-the-configured-attempts] result == nil ==> p.attempts == pInt(p.metaData.Parameters, "attempts") && p.attempts >= 1
+//@   ensures[configured-cooldown] result == nil ==> p.cooldown == pSeconds(p.metaData.Parameters, "cooldown_between_attempts_seconds") * 1000000000 && p.cooldown >= 0 && p.cooldownMultiplier == pFloat(p.metaData.Parameters, "cooldown_multiplier")
